@@ -582,6 +582,17 @@ def _cls(key, pred):
     return ranges_from_pred(key, pred, _alpha())
 
 
+def ch_cls(c, key, pred):
+    """element c satisfies the character predicate -> python bool or z3 Bool.  The class is tabulated over the
+    context alphabet; an element whose domain leaves it (placeholders, pinned characters) over its own domain."""
+    if isinstance(c, str):
+        return bool(pred(c))
+    a = _alpha()
+    if ranges_inter(c.dom, a) == c.dom:
+        return ch_in(c, ranges_from_pred(key, pred, a))
+    return ch_in(c, ranges_from_pred(key, pred, c.dom))
+
+
 def _map_char(c, key, fn):
     """apply a str->str function that maps one char to one char (cases that
     change length are decided by forking).  Returns list of elements."""
@@ -803,8 +814,7 @@ class SymStr:
     def _allcls(self, key, pred, empty=False):
         if not self.cs:
             return empty
-        r = _cls(key, pred)
-        return mkbool(zand([ch_in(c, r) for c in self.cs]))
+        return mkbool(zand([ch_cls(c, key, pred) for c in self.cs]))
 
     def isalpha(self): return self._allcls("isalpha", str.isalpha)
     def isdigit(self): return self._allcls("isdigit", str.isdigit)
@@ -882,7 +892,7 @@ class SymStr:
     def _is_ws(self, c, chars):
         """decision: element c is in the strip/split set"""
         if chars is None:
-            return Ctx.cur.decide_b(ch_in(c, _cls("isspace", str.isspace)))
+            return Ctx.cur.decide_b(ch_cls(c, "isspace", str.isspace))
         chars = SymStr.of(chars)
         if chars.is_concrete():
             return Ctx.cur.decide_b(ch_in(c, chars_to_ranges(chars.cs)))
@@ -934,8 +944,29 @@ class SymStr:
         words.append(SymStr.mk(cur))
         return words
 
+    _LINE_ENDS = None
+
     def splitlines(self, keepends=False):
-        raise Unsupported("splitlines")
+        # CPython's line boundaries: \n \r \r\n \v \f \x1c \x1d \x1e \x85
+        if SymStr._LINE_ENDS is None:
+            SymStr._LINE_ENDS = chars_to_ranges("\n\r\v\f\x1c\x1d\x1e\x85  ")
+        lines, cur = [], []
+        i, n = 0, len(self.cs)
+        while i < n:
+            c = self.cs[i]
+            if Ctx.cur.decide_b(ch_in(c, SymStr._LINE_ENDS)):
+                end = [c]
+                if i + 1 < n and Ctx.cur.decide_b(zand([ch_eq(c, "\r"), ch_eq(self.cs[i + 1], "\n")])):
+                    end.append(self.cs[i + 1])
+                    i += 1
+                lines.append(SymStr.mk(cur + end if keepends else cur))
+                cur = []
+            else:
+                cur.append(c)
+            i += 1
+        if cur:
+            lines.append(SymStr.mk(cur))
+        return lines
 
     def partition(self, sep):
         sep = SymStr.of(sep)
